@@ -31,13 +31,53 @@
 (* object with exactly that protocol surface (every other operation raises *)
 (* what Python raises for a missing method) plus the builtin types that    *)
 (* have this surface, and runs the real element over it.                   *)
+(*                                                                         *)
+(* Two further surfaces of the flow (round 8):                             *)
+(*                                                                         *)
+(*   hint    what operator.length_hint(iter(flow)) tells about the number  *)
+(*           of values still to come (PEP 424: an ESTIMATE that "may be    *)
+(*           larger or smaller than the actual size"; NotImplemented and a *)
+(*           TypeError mean "no idea" = the default 0):                    *)
+(*             "absent"   no __length_hint__ (generators, user iterators)  *)
+(*             "exact"    the true number of remaining values (list, range *)
+(*                        tuple, deque, dict iterators; computed from the  *)
+(*                        live state of the iterator at each request)      *)
+(*             "small"    one less than that (not below 0)                 *)
+(*             "large"    two more than that                               *)
+(*             "zero"     always 0                                         *)
+(*             "notimpl"  returns NotImplemented                           *)
+(*             "typeerr"  raises TypeError                                 *)
+(*           HintOf(p, rem) is the number length_hint returns.  The hint   *)
+(*           is explored on the profiles with caps \subseteq {"len"} (it   *)
+(*           belongs to the iterator, not to the container).               *)
+(*   growth  the flow is LIVE: while the run generator is suspended at its *)
+(*           gat-th yield the consumer appends gby values to the list the  *)
+(*           flow iterates over (action FGrow: N' = N + gby).  A list      *)
+(*           iterator (like every iterator that has not yet signalled its  *)
+(*           end) delivers them; after the end was seen (phases emit /     *)
+(*           done) nothing can be added.  The finite flow xs of the        *)
+(*           statement is the sequence the iterator delivers until it      *)
+(*           ends: Iota(N) for the final N.                                *)
+(*                                                                         *)
+(* The machine looks at neither, so FlowIndependent holds for all of them. *)
+(* Sensitivity guard: with UseHint = TRUE the machine is the (wrong)       *)
+(* design "resolve negative indices at once from the length hint and read  *)
+(* the flow through islice" - TLC must refute FlowIndependent for it       *)
+(* (SliceFlow_guard_hint.cfg: inexact hints; SliceFlow_guard_grow.cfg:     *)
+(* exact hints of a growing flow).                                         *)
 (***************************************************************************)
 EXTENDS Slice
 
-CONSTANTS CapNames      \* the capabilities explored (a subset of those listed above)
+CONSTANTS CapNames,     \* the capabilities explored (a subset of those listed above)
+          HintNames,    \* the length-hint surfaces explored
+          MaxGrowAt,    \* growth after the 1st .. MaxGrowAt-th yield (0: static flows only)
+          MaxGrowBy,    \* by 1 .. MaxGrowBy values
+          UseHint       \* FALSE: the machine of the statement; TRUE: sensitivity guard (see above)
 
-VARIABLE prof
-fvars == <<a, b, s, N, pos, dq, ph, ind, ny, cnt, nxt, out, pulls, prof>>
+VARIABLES prof,
+          gat, gby, grown, N0,   \* growth plan (gat = 0: none), whether it happened, the initial length
+          ha, hb                 \* guard variant only: the indices resolved from the hint
+fvars == <<a, b, s, N, pos, dq, ph, ind, ny, cnt, nxt, out, pulls, prof, gat, gby, grown, N0, ha, hb>>
 
 Protos == {"once", "iter", "legacy"}
 Has(p, c) == c \in p.caps
@@ -46,11 +86,28 @@ WellFormed(p) == /\ p.proto = "legacy" => Has(p, "index")
                  /\ Has(p, "slice") => Has(p, "index")
                  /\ Has(p, "seq") => Has(p, "len") /\ Has(p, "index")     \* the abstract methods of Sequence
                  /\ p.proto = "once" => p.caps = {}                       \* iterators and generators
-Profiles == {p \in [proto : Protos, caps : SUBSET CapNames] : WellFormed(p)}
+                 \* iter() of an object without __iter__ is the builtin sequence iterator: its hint is not a choice
+                 /\ p.hint # "absent" => p.proto # "legacy" /\ p.caps \subseteq {"len"}
+Profiles == {p \in [proto : Protos, caps : SUBSET CapNames, hint : HintNames \cup {"absent"}] : WellFormed(p)}
+\* live flows: iterators and containers without / with all the other protocols, without / with an exact hint
+CanGrow(p) == /\ p.proto # "legacy" /\ p.hint \in {"absent", "exact"}
+              /\ p.caps = {} \/ (p.caps = CapNames /\ p.hint = "absent")
 
-FInit == Init /\ prof \in Profiles
-P == UNCHANGED prof
-FStart == Start /\ P
+\* operator.length_hint(iterator) when rem values are still to come
+HintOf(p, rem) == CASE p.hint = "exact" -> rem
+                    [] p.hint = "small" -> Max(rem - 1, 0)
+                    [] p.hint = "large" -> rem + 2
+                    [] OTHER -> 0           \* absent, zero, notimpl, typeerr: the default
+
+FInit == /\ Init /\ prof \in Profiles /\ N0 = N /\ grown = FALSE /\ ha = 0 /\ hb = 0
+         /\ \/ gat = 0 /\ gby = 0
+            \/ CanGrow(prof) /\ gat \in 1..MaxGrowAt /\ gby \in 1..MaxGrowBy
+P == UNCHANGED <<prof, gat, gby, grown, N0, ha, hb>>
+HintPath == UseHint /\ Negative /\ HintOf(prof, N) # 0
+FStart == ~HintPath /\ Start /\ P
+FHintStart == /\ HintPath /\ ph = "start" /\ ph' = "hint"
+              /\ ha' = NormIdx(a, HintOf(prof, N), 0) /\ hb' = NormIdx(b, HintOf(prof, N), HintOf(prof, N))
+              /\ UNCHANGED <<a, b, s, N, pos, dq, ind, ny, cnt, nxt, out, pulls, prof, gat, gby, grown, N0>>
 FSkip == Skip /\ P
 FFill == Fill /\ P
 FLag == Lag /\ P
@@ -58,14 +115,26 @@ FDrain == Drain /\ P
 FEmit == Emit /\ P
 FCollect == Collect /\ P
 FISlice == ISlice /\ P
-FNext == FStart \/ FSkip \/ FFill \/ FLag \/ FDrain \/ FEmit \/ FCollect \/ FISlice
+\* guard variant: islice(flow, ha, hb), the step applied outside as for the other branches
+FHint == /\ ph = "hint"
+         /\ IF pos >= hb \/ Exhausted THEN ph' = "done" /\ UNCHANGED <<pos, ny, out, pulls>>
+            ELSE /\ pos' = pos + 1 /\ UNCHANGED ph
+                 /\ IF pos >= ha THEN Deliver(pos) ELSE UNCHANGED <<ny, out, pulls>>
+         /\ UNCHANGED <<a, b, s, N, dq, ind, cnt, nxt>> /\ P
+\* the consumer, holding the suspended generator after its gat-th value, appends gby values to the live flow
+Suspended == out # <<>> /\ pulls[Len(pulls)] = pos /\ ph \in {"lag", "islice", "hint"}
+FGrow == /\ gat > 0 /\ ~grown /\ Len(out) = gat /\ Suspended
+         /\ N' = N + gby /\ grown' = TRUE
+         /\ UNCHANGED <<a, b, s, pos, dq, ph, ind, ny, cnt, nxt, out, pulls, prof, gat, gby, N0, ha, hb>>
+FNext == FStart \/ FHintStart \/ FSkip \/ FFill \/ FLag \/ FDrain \/ FEmit \/ FCollect \/ FISlice \/ FHint \/ FGrow
 FSpec == FInit /\ [][FNext]_fvars
 
 (***************************************************************************)
 (* Declarative side.  What the iteration protocol delivers from a flow     *)
 (* holding 0..n-1, by profile: the same list for all of them - that list   *)
 (* (not the object's own subscription flow[a:b:s], which most profiles do  *)
-(* not define) is what the statement slices.                               *)
+(* not define, and not what the flow estimates about itself) is what the   *)
+(* statement slices.                                                       *)
 (***************************************************************************)
 Listed(p, n) == Iota(n)
 
@@ -73,9 +142,14 @@ Listed(p, n) == Iota(n)
 FlowIndependent == Done => out = PySlice(Len(Listed(prof, N)), a, b, s)
 \* one iterator, one cursor: the values pulled are a prefix of the flow (nothing is read twice or skipped)
 OneCursor == pos <= N /\ \A k \in 1..Len(pulls) : pulls[k] <= N /\ (k > 1 => pulls[k - 1] <= pulls[k])
+\* a flow grows only under the hands of the consumer and only before its end was seen
+GrowthSeen == /\ N = N0 + (IF grown THEN gby ELSE 0)
+              /\ grown => Len(out) >= gat
 
-FEmitted == Done => PrintT(ToJson([a |-> J(a), b |-> J(b), s |-> J(s), n |-> N, out |-> out, branch |-> Branch,
-                                   proto |-> prof.proto,
-                                   len |-> Has(prof, "len"), index |-> Has(prof, "index"), neg |-> Has(prof, "neg"),
-                                   slice |-> Has(prof, "slice"), seq |-> Has(prof, "seq"), rev |-> Has(prof, "rev")]))
+FEmitted == (Done /\ (gat = 0 \/ grown)) =>
+            PrintT(ToJson([a |-> J(a), b |-> J(b), s |-> J(s), n |-> N0, out |-> out, branch |-> Branch,
+                           proto |-> prof.proto,
+                           len |-> Has(prof, "len"), index |-> Has(prof, "index"), neg |-> Has(prof, "neg"),
+                           slice |-> Has(prof, "slice"), seq |-> Has(prof, "seq"), rev |-> Has(prof, "rev"),
+                           hint |-> prof.hint, hint0 |-> HintOf(prof, N0), gat |-> gat, gby |-> gby]))
 =============================================================================
